@@ -1967,6 +1967,15 @@ class MixedBC(ConstBC1stOrderBase):
             const = np.asarray(2 * dx * self.const / (2 + dx * self.value))
             factor = np.asarray((2 - dx * self.value) / (2 + dx * self.value))
 
+        if np.any(np.isinf(factor)):
+            # `factor` is `nan` for an infinite value; it is infinite only if
+            # `2 + dx * value == 0`, where no virtual point can impose the condition
+            msg = (
+                f"Singular mixed boundary condition: `value` must not equal -2/dx = "
+                f"{-2 / dx} on this grid"
+            )
+            raise ValueError(msg)
+
         # correct at places of infinite values
         const[~np.isfinite(factor)] = 0
         factor[~np.isfinite(factor)] = -1
